@@ -23,14 +23,24 @@ type MultiPassReader struct {
 	rs          io.ReadSeeker
 	passesCount int
 	passesLimit int
+	// readInPass is true when the current pass has returned data.
+	readInPass bool
 }
 
 func (r *MultiPassReader) Read(p []byte) (n int, err error) {
 	n, err = r.rs.Read(p)
+	if n > 0 {
+		r.readInPass = true
+	}
 	if err == io.EOF {
 		r.passesCount++
+		if !r.readInPass {
+			// an empty source stays empty: rewinding would return (0, nil) forever
+			return
+		}
 		if r.passesLimit <= 0 || r.passesCount < r.passesLimit {
 			_, err = r.rs.Seek(0, io.SeekStart)
+			r.readInPass = false
 		}
 	}
 	return
